@@ -17,7 +17,7 @@ ASSUMPTIONS = ["rv/model/sgr.py is the reference for what an ANSI terminal displ
                "text free of ESC / 0x9B"]
 
 CODES = [0, 1, 2, 3, 4, 5, 7] + list(range(30, 38)) + [39] + list(range(40, 48)) + [49]
-TEXTS = ["a", "b", " ", "xyz", "\n", "a\nb", "\t", "一", "é́", "m", "[", "1;2", "~", "\r\n", ""]
+TEXTS = ["a", "b", " ", "xyz", "\n", "a\nb", "\t", "一", "é́", "m", "[", "1;2", "~", "\r\n", "", "\x85", "p\x90q", "\x07"]
 
 
 def parsed_cells(g):
